@@ -38,6 +38,22 @@ def call_arity(t):
 
 # Positional parameter names of library callables (for positional <-> keyword normalisation).
 # Keys: qualified name, or ".method" for methods looked up by attribute name.
+# documented defaults of library keywords: a call that spells one of them out is the same call (engine A drops it from the term)
+LIB_DEFAULTS = {
+    ("numpy.meshgrid", "indexing"): "xy", ("numpy.linspace", "endpoint"): True, ("numpy.ravel", "order"): "C", ("numpy.reshape", "order"): "C", (".ravel", "order"): "C",
+    (".flatten", "order"): "C", (".reshape", "order"): "C", ("numpy.unravel_index", "order"): "C", ("numpy.loadtxt", "unpack"): False, ("numpy.loadtxt", "ndmin"): 0,
+    ("numpy.loadtxt", "skiprows"): 0, (".groupby", "sort"): True, (".groupby", "as_index"): True, (".groupby", "dropna"): True, ("numpy.searchsorted", "side"): "left",
+    ("numpy.unique", "return_counts"): False, ("numpy.unique", "return_index"): False, ("numpy.unique", "return_inverse"): False, ("numpy.isin", "invert"): False,
+    ("numpy.allclose", "equal_nan"): False, ("numpy.allclose", "rtol"): 1e-05, ("numpy.allclose", "atol"): 1e-08, ("numpy.nan_to_num", "copy"): True,
+    ("numpy.array", "copy"): True, ("numpy.ma.masked_where", "copy"): True, (".copy", "order"): "C", (".astype", "copy"): True, (".query", "p"): 2, (".query", "k"): 1,
+    (".query", "eps"): 0, (".query_ball_point", "eps"): 0, ("numpy.concatenate", "axis"): 0, ("numpy.cumsum", "axis"): None, ("numpy.sum", "axis"): None,
+    ("numpy.mean", "axis"): None, ("numpy.median", "axis"): None, ("numpy.min", "axis"): None, ("numpy.max", "axis"): None, ("numpy.argmin", "axis"): None,
+    ("numpy.argmax", "axis"): None, ("numpy.any", "axis"): None, ("numpy.all", "axis"): None, ("numpy.average", "axis"): None, ("numpy.var", "ddof"): 0, ("numpy.std", "ddof"): 0,
+    ("numpy.split", "axis"): 0, ("numpy.transpose", "axes"): None, (".dropna", "how"): "any", (".dropna", "axis"): 0, ("numpy.broadcast_to", "subok"): False,
+    ("scipy.spatial.Delaunay", "furthest_site"): False, ("scipy.spatial.Delaunay", "incremental"): False, ("scipy.spatial.cKDTree", "leafsize"): 16,
+}
+
+
 SIGNATURES = {
     "numpy.linspace": ["start", "stop", "num"],
     "numpy.ravel": ["a", "order"],
